@@ -164,7 +164,7 @@ def run(tier):
         chk.part("routing_" + name, **kw)
     for f in failures:
         key = c06.classify(f)
-        if any(t in key for t in ("step_unbounded", "wrong_statistic_value", "schedule_mismatch", "step_is_not_the_documented_update", "acceptance_statistic_is_not")):
+        if any(t in key for t in ("step_unbounded", "wrong_statistic_value", "schedule_mismatch", "step_is_not_the_documented_update", "acceptance_statistic_is_not", "reported_averaged_step")):
             ev = f["event"]
             if "schedule_mismatch" in key and ev.get("e") == "adapt":
                 key = "routing:%s:%s" % (ev.get("branch"), ev.get("fedcalls"))
